@@ -50,6 +50,18 @@ CHECKS = {
    technique='explicit-state BFS over request/registration histories on one real Mux with explicit pool choices, differential oracle against a fresh Mux; plus stateless model checking of 2-3 concurrent requests with race detection',
    text='All histories to depth 4 (quick) / 6 (thorough) over 9 requests x 3 pool behaviours + late registration of a route with more parameters; in relay, route and no-route handlers the observation vector (route info, every parameter name that exists anywhere, RouteParamAny, initial status, request id read twice) must equal the one on a fresh Mux with the same routes; ids unique and constant. Concurrent part: all interleavings (unbounded for 2 clients x 2 requests) at pool get/put and the id counter, field-level race detection.',
    note=S_NOTE + ' The state key contains every pooled Store (names, values up to capacity, status, id length); the id counter is excluded (ids are checked along each path).'),
+ 'C01': dict(engine='vstate-style enumeration (vlogrun)', cat='model_checking', ref='4 (C01), 2.3, 2.4',
+   technique='bounded exhaustive enumeration of inputs (all 1-/2-byte strings, all Unicode scalars) and of With/WithGroup chain x call-site attribute trees within a node budget, every record run through the real Logger+JsonHandler and judged by an independent ordered JSON reader and reference builder',
+   text='Every 1- and 2-byte string and every Unicode scalar as message, key and value (thorough: all three positions for scalars too); all 36 value kinds at 9 position classes x 5 levels x source on/off x 2 entry points; every (chain, call attributes) combination within the node budget (109 671 records quick). Each record must be one Write of one newline-terminated line that parses to time, level, [source = the harness call site], msg and exactly the expected ordered member tree.',
+   note=LOG_NOTE),
+ 'C13': dict(engine='vstate-style enumeration (vlogrun)', cat='model_checking', ref='4 (C13), 2.3, 2.4',
+   technique='bounded exhaustive enumeration as for C01 plus group names over arbitrary bytes and class-representative strings, judged by an independent key=value tokenizer (bare run or Go-quoted string) and the reference flattening to dotted paths',
+   text='Same generators as C01 against the Text handler, plus every 1-/2-byte string as WithGroup name and as group key and every string of <=3 representatives of 15 character classes (letter, space, =, quote, backslash, newline, DEL, NBSP, U+2028, zero-width, U+FFFD, invalid byte, tab, dot, non-ASCII) in message / key / group / value position. The line must tokenize unambiguously and unquote to exactly time, level, [source], msg and each leaf with its dotted path.',
+   note=LOG_NOTE),
+ 'C03': dict(engine='vstate+vsched', cat='model_checking', ref='4 (C03), 2.2, 2.3',
+   technique='explicit-state BFS over derivation trees of the real handlers with a differential oracle (isolated replay of each logger\'s own chain; call-site equivalence), plus stateless model checking of two concurrent derivers with race detection',
+   text='For each handler: all derivation trees of <=5 (thorough 6) loggers over 6 derivation kinds; after every derivation every existing logger is probed and must write byte-for-byte what a logger built alone from a fresh root by replaying its own chain writes, and structurally what a root logger given the With attributes at the call site writes. The aliasing precondition (parent with spare buffer capacity and >=2 children) is counted and must occur. Concurrent part: two goroutines deriving from a shared non-root parent and logging through child, parent and grandchild, all interleavings to the bound.',
+   note=S_NOTE),
 }
 
 NA_REASON = 'check not built yet (work in progress; see DESIGN.md section 4)'
